@@ -13,7 +13,8 @@ from . import c01, c02, c07, c10
 
 PID = "C09"
 LEVEL = "model_checking"
-BOUND = {"quick": 260, "thorough": 6000}
+BOUND = {"quick": 260, "thorough": 6000}          # full pipeline (LP + brute force)
+BOUND_BF = {"quick": 5000, "thorough": 40000}     # loading + brute force only
 
 
 def to_inst(f, a):
@@ -41,7 +42,7 @@ def solver_options(a):
     return opts
 
 
-def judge_file(text, a, tally):
+def judge_file(text, a, tally, lp=True):
     defects, f = genfile.check_file(text, a)
     if f is None or defects:
         tally.inc("files_not_wellformed")     # well-formedness itself is C08's business
@@ -90,7 +91,7 @@ def judge_file(text, a, tally):
         return
     R = ref.R(inst)
     # 2. LP mode: valid matching or correct infeasibility verdict (every class)
-    for pc, stab, crits in solver_options(a):
+    for pc, stab, crits in (solver_options(a) if lp else []):
         crits = [c for c in crits if not (c[0] == "gen" and c[1] and c[1][0] > R)]
         ctx = sweep.Ctx()
         ctx.inst, ctx.twopl, ctx.pc, ctx.stab, ctx.crits = inst, two, pc, stab, tuple(crits)
@@ -130,7 +131,7 @@ def judge_file(text, a, tally):
 
 
 def work(item, tally):
-    a, cap = item
+    a, cap, lp = item
     argv = genvectors.argv_of(a)
     texts = set()
     n = 0
@@ -149,7 +150,9 @@ def work(item, tally):
     if len(texts) > 1:
         tally.inc("nontrivial")
     for text in sorted(texts):
-        judge_file(text, a, tally)
+        judge_file(text, a, tally, lp=lp)
+    if not lp:
+        tally.inc("vectors_bf_only")
     if texts and tally.c.get("vectors", 0) % 20 == 1:
         tally.sample({"generator_argv": argv, "distinct_files": len(texts),
                       "one_file": sorted(texts)[0],
@@ -161,10 +164,12 @@ def work(item, tally):
 def main(tier):
     t0 = time.time()
     cap = BOUND[tier]
+    cap_bf = BOUND_BF[tier]
     vs = [a for a in genvectors.rng_vectors(tier)
-          if genvectors.schedule_bound(a) <= cap and a.get("numinst", 1) == 1]
+          if genvectors.schedule_bound(a) <= cap_bf and a.get("numinst", 1) == 1]
     vs.sort(key=genvectors.schedule_bound, reverse=True)
-    tally = pool.run(work, [(a, cap) for a in vs], chunksize=1)
+    tally = pool.run(work, [(a, cap_bf if genvectors.schedule_bound(a) > cap else cap,
+                             genvectors.schedule_bound(a) <= cap) for a in vs], chunksize=1)
     c = tally.c
     coverage = {
         "states": c.get("executions", 0) + c.get("generator_executions", 0) + c.get("bf_items", 0),
@@ -182,6 +187,8 @@ def main(tier):
                 "traces_validated_against_impl = distinct generated files pushed through the real "
                 "pipeline; non-trivial = vectors with more than one distinct file" % cap,
         "generator_vectors": c.get("vectors", 0),
+        "generator_vectors_load_and_bruteforce_only": c.get("vectors_bf_only", 0),
+        "schedule_bound_load_and_bruteforce_only": cap_bf,
         "generator_executions": c.get("generator_executions", 0),
         "distinct_files_solved": c.get("files", 0),
         "lp_items": c.get("lp_items", 0),
